@@ -696,3 +696,14 @@ package ackhandler
 //@   ensures [only-0rtt-packets-dropped] implies(!zeroRTT, !result && h.bytesInFlight == old(h.bytesInFlight) && called("(*sentPacketHistory).Remove") == 0)
 //@   ensures [dropped-once] implies(zeroRTT, result && called("(*sentPacketHistory).Remove") == 1 && h.bytesInFlight == old(h.bytesInFlight) - ite(old(arg1.includedInBytesInFlight), arg1.Length, 0) && !arg1.includedInBytesInFlight)
 //@   modifies h.bytesInFlight, arg1.includedInBytesInFlight, hist.numOutstanding, hist.packets, hist.packets[*], hist.firstPacketNumber
+
+//@ func IsFrameAckEliciting
+//@   props C10
+//@   ensures [ack-and-close-do-not-elicit] iff(result, !typeis(f, *wire.AckFrame) && !typeis(f, *wire.ConnectionCloseFrame))
+//@   modifies nothing
+
+//@ func HasAckElicitingFrames
+//@   props C10
+//@   modifies nothing
+//@ loop HasAckElicitingFrames #0
+//@   modifies nothing
